@@ -286,6 +286,8 @@ class SSH_Socket(ReadBuf, WriteBuf):
             else:
                 payload = self.read(payload_length)
                 header.write(payload)
+            if len(payload) == 0:  # A packet with no message type byte is invalid; report it as a read error instead of crashing.
+                raise SSH_Socket.InsufficientReadException('invalid ssh packet (empty payload)')
             packet_type = ord(payload[0:1])
             if sshv == 1:
                 rcrc = SSH1.crc32(padding + payload)
